@@ -2,6 +2,7 @@
 """
 import numpy as np
 import dimarray as da
+from dimarray.core.transform import _deal_with_axis
 
 def percentile(a, pct, axis=0, newaxis=None, out=None, overwrite_input=False):
     """ calculate percentile along an axis
@@ -35,7 +36,7 @@ def percentile(a, pct, axis=0, newaxis=None, out=None, overwrite_input=False):
     """
     if not isinstance(a, da.DimArray):
         raise TypeError("Expected DimArray instance got {} of type {}".format(a, type(a)))
-    pos, nm = a._get_axis_info(axis)
+    a, pos, nm = _deal_with_axis(a, axis) # (a tuple of dimensions is grouped first, like for the other reductions)
     results = np.percentile(a.values, pct, axis=pos, out=out, overwrite_input=overwrite_input)
 
     # If the result is scalar (pct is scalar and ), just return it
